@@ -1231,6 +1231,54 @@ func c08r6(p *Program, r *Report) {
 		r.Unresolved("GetStream: the loop over the words that claims a bit was not found")
 		return
 	}
+	// the scan makes exactly one step per word whatever the rotating start is: `for i := 0; i < N; i++`, a range over
+	// the words, or `for i := S; i < S+N; i++` with S already reduced below N (an unreduced, free-running S makes the
+	// unsigned bound S+N wrap, and then no word is visited at all)
+	if f, isFor := scan.(*ast.ForStmt); isFor {
+		isWordCount := func(e ast.Expr) bool {
+			t := strings.ReplaceAll(exprStr(stripAllConv(info, ast.Unparen(e))), " ", "")
+			return strings.HasSuffix(t, ".numBuckets") || strings.HasPrefix(t, "len(") && strings.HasSuffix(t, ".streams)")
+		}
+		okTrip, why := false, "loop header not understood"
+		init, isInit := f.Init.(*ast.AssignStmt)
+		cond, isCond := ast.Unparen(f.Cond).(*ast.BinaryExpr)
+		if isInit && isCond && len(init.Lhs) == 1 && len(init.Rhs) == 1 && cond.Op == token.LSS && exprStr(cond.X) == exprStr(init.Lhs[0]) {
+			start := ast.Unparen(init.Rhs[0])
+			if k, isK := constInt(info, stripAllConv(info, start)); isK && k == 0 && isWordCount(cond.Y) {
+				okTrip, why = true, "0 .. number of words"
+			} else if sum, isSum := ast.Unparen(cond.Y).(*ast.BinaryExpr); isSum && sum.Op == token.ADD {
+				var other ast.Expr
+				if isWordCount(sum.X) {
+					other = sum.Y
+				} else if isWordCount(sum.Y) {
+					other = sum.X
+				}
+				if other != nil && exprStr(ast.Unparen(other)) == exprStr(start) {
+					// start < N known where the loop is entered?
+					fct, okF := g.GuardFacts().Before(g.FirstNodeIn(f.Init))
+					reduced := false
+					if okF {
+						d := newDBM(g, fct, nil)
+						wc := sum.X
+						if !isWordCount(wc) {
+							wc = sum.Y
+						}
+						reduced = d.leExpr(start, 1, wc, 0)
+					}
+					if reduced {
+						okTrip, why = true, "start .. start + number of words, start below the number of words"
+					} else {
+						why = "the loop runs from " + exprStr(start) + " while below " + exprStr(cond.Y) + ", and " + exprStr(start) + " is not known to be below the number of words: for a start near the top of its unsigned range the bound wraps around and no word is visited"
+					}
+				}
+			}
+		}
+		if !okTrip && why == "loop header not understood" {
+			r.Unresolved("GetStream: the scan loop header (%s; %s) is neither 0..N nor S..S+N", exprStr(f.Cond), p.Pos(f))
+		} else {
+			r.Check(okTrip, f, "(*IDGenerator).GetStream scan makes one step per word for every start", why, "GetStream's scan does not visit every word for every value of the rotating start: "+why+" - 'no stream available' is answered although ids are free")
+		}
+	}
 	ef := g.Events(func(st Step) []string {
 		switch st.Kind {
 		case StCond:
